@@ -218,8 +218,7 @@ pub open spec fn tok_is(t: Token, s: Seq<char>) -> bool {
 pub open spec fn tok_is_sep(t: Token, s: Seq<char>) -> bool {
     tok_is(t, s) || (t matches Token::Comma(c, _) && c@ == s)
 }
-// A7: the token the tokenizer produces when scanning from offset p (Tokenizer::next is a deterministic function of input and cursor)
-pub uninterp spec fn tk<'a>(b: Seq<u8>, p: int) -> Token<'a>;
+// tk(b, p), the token the tokenizer produces when scanning from offset p, is defined in the tokenizer's ghost vocabulary (lemma_tk: it is the only one)
 pub open spec fn is_not_tok(t: Token) -> bool { t matches Token::Operator(op, _) && op@ == "not"@ }
 pub open spec fn pw(t: Token) -> int {
     match t { Token::Operator(op, _) => if keyword::reg_infix(op@) { lbp(op@) } else { -1 }, _ => -1 }
